@@ -53,6 +53,15 @@ STAGES["C09"] = [
          quick=(20000, 1), thorough=(200000, 16), crash_is_violation=True),
 ]
 
+def _fuzz(pid, pkg, secs):
+    return dict(name="nativefuzz", pkg=pkg, test="FuzzVf_" + pid, flavour="fuzz", fuzz=True, thorough_only=True, exclusive=True,
+                quick=(0, 0), thorough=(secs, 1), crash_is_violation=True, budget_thorough=secs + 240)
+
+STAGES["C10"].append(_fuzz("C10", "z", 120))
+STAGES["C11"].append(_fuzz("C11", "z", 120))
+STAGES["C19"].append(_fuzz("C19", "z", 60))
+STAGES["C20"].append(_fuzz("C20", "simd", 60))
+
 def _sm(pid, quick, thorough):
     return dict(name="cachesm", pkg="ristretto", test="TestVf_SM_" + pid, replay_test="TestVfReplay_SM",
                 quick=(quick, 1), thorough=(thorough, 16), crash_is_violation=True)
